@@ -274,14 +274,6 @@ class IsoFormat:
     opts = {"returns": "str"}
 
 
-@contract("yamlpath.common.parsers.Parsers.jsonify_yaml_data", props=["C16"])
-class JsonifyForGet:
-    assumed = True
-    notes = "conversion of a loaded container to JSON-compatible data (no I/O)"
-    raises = ["RecursionError"]
-    opts = {"returns": "Any"}
-
-
 @contract("yamlpath.common.nodes.Nodes.get_timestamp_with_tzinfo", props=["C16"])
 class TimestampTz:
     assumed = True
